@@ -91,6 +91,14 @@ CHECKS = {
         "and generic profiles (signer choice and value, mandatory/forbidden header fields, generation time and location, signed payload, signature).",
         "Sampled histories (<= 40 steps, <= 4 stations); certificate inclusion checked one-directionally; full mesh; trusts asn1tools + python-ecdsa.",
     ),
+    "C11": (
+        "hypothesis-generated sensor reports through the real CA / VRU / DEN services with an independent mapping oracle, round trip and constraint table; enumerated receiver-side time reconstruction",
+        "GNSS reports over the full range (all subsets of optional keys, confidence-class boundaries, gdt wraps, all station types/roles, all "
+        "clustering states) are run through the real services on virtual time; every BTPDataRequest payload is decoded, re-encoded, checked "
+        "against the CDD constraints and compared field by field with an independent mapping (in-range within one unit, out-of-range and "
+        "unavailable codes), and every report must produce a message.",
+        "Sampled inputs; rounding direction free; ellipse orientation not judged; report key 'time' always present; trusts asn1tools UPER for decoding.",
+    ),
 }
 
 NOT_APPLICABLE = {
